@@ -147,8 +147,13 @@ pp_uthread_proxy (ppointer data)
 void
 p_uthread_init (void)
 {
-	if (P_LIKELY (pp_uthread_specific_data == NULL))
+	if (P_LIKELY (pp_uthread_specific_data == NULL)) {
 		pp_uthread_specific_data = p_uthread_local_new ((PDestroyFunc) pp_uthread_cleanup);
+
+		/* Create the TLS key right away: a starting thread must always be
+		 * able to store its handle, otherwise its reference is never dropped */
+		(void) p_uthread_get_local (pp_uthread_specific_data);
+	}
 
 	if (P_LIKELY (pp_uthread_new_spin == NULL))
 		pp_uthread_new_spin = p_spinlock_new ();
